@@ -19,7 +19,7 @@ Section Path.
   Variable eqA : forall x y : A, {x = y} + {x <> y}.
   Variables sep dot bslash : A.
 
-  Definition str := list A.
+  Local Notation str := (list A).
 
   Definition ceq (x y : A) : bool := if eqA x y then true else false.
 
